@@ -52,13 +52,8 @@ impl InstanceState {
         }
     }
 
-    pub fn update_state(
-        &mut self,
-        change_kind: ChangeKind,
-        writer_guid: [u8; 16],
-        now: Option<Time>,
-    ) {
-        // A writer has the instance registered from its first sample until it unregisters it
+    /// A writer has the instance registered from its first sample until it unregisters it
+    pub fn update_live_writer_list(&mut self, change_kind: ChangeKind, writer_guid: [u8; 16]) {
         match change_kind {
             ChangeKind::Alive | ChangeKind::AliveFiltered | ChangeKind::NotAliveDisposed => {
                 if !self.live_writer_list.contains(&writer_guid) {
@@ -69,6 +64,15 @@ impl InstanceState {
                 self.live_writer_list.retain(|x| x != &writer_guid);
             }
         }
+    }
+
+    pub fn update_state(
+        &mut self,
+        change_kind: ChangeKind,
+        writer_guid: [u8; 16],
+        now: Option<Time>,
+    ) {
+        self.update_live_writer_list(change_kind, writer_guid);
 
         match self.instance_state {
             InstanceStateKind::Alive => {
@@ -333,6 +337,47 @@ impl<T> DataReaderEntity<T> {
         reception_timestamp: Time,
     ) -> DdsResult<AddChangeResult> {
         let instance_handle = InstanceHandle::new(change_instance_handle);
+        // data_reader exclusive access if the writer is not the allowed to write the sample do an early return
+        // before the change has any effect on the state of the instance
+        if self.qos.ownership.kind == OwnershipQosPolicyKind::Exclusive {
+            // Get the InstanceHandle of the data writer owning this instance
+            if let Some(instance_owner) = self
+                .instance_ownership
+                .iter()
+                .find(|x| x.instance_handle == instance_handle)
+            {
+                let instance_writer = InstanceHandle::new(writer_guid.into());
+                let Some(sample_owner) = self
+                    .matched_publication_list
+                    .iter()
+                    .find(|x| x.key().value == instance_owner.owner_handle.as_ref())
+                else {
+                    return Ok(AddChangeResult::NotAdded);
+                };
+                let Some(sample_writer) = self
+                    .matched_publication_list
+                    .iter()
+                    .find(|x| &x.key().value == instance_writer.as_ref())
+                else {
+                    return Ok(AddChangeResult::NotAdded);
+                };
+                if &instance_owner.owner_handle != instance_writer.as_ref()
+                    && sample_writer.ownership_strength().value
+                        <= sample_owner.ownership_strength().value
+                {
+                    // The ignored change only tells whether its writer has the instance registered
+                    if let Some(instance) = self
+                        .instances
+                        .iter_mut()
+                        .find(|x| x.handle() == &instance_handle)
+                    {
+                        instance.update_live_writer_list(change_kind, writer_guid.into());
+                    }
+                    return Ok(AddChangeResult::NotAdded);
+                }
+            }
+        }
+
         // Update the state of the instance before creating since this has direct impact on
         // the information that is stored on the sample
         match change_kind {
@@ -392,37 +437,7 @@ impl<T> DataReaderEntity<T> {
         };
 
         let change_instance_handle = sample.instance_handle;
-        // data_reader exclusive access if the writer is not the allowed to write the sample do an early return
         if self.qos.ownership.kind == OwnershipQosPolicyKind::Exclusive {
-            // Get the InstanceHandle of the data writer owning this instance
-            if let Some(instance_owner) = self
-                .instance_ownership
-                .iter()
-                .find(|x| x.instance_handle == sample.instance_handle)
-            {
-                let instance_writer = InstanceHandle::new(sample.writer_guid);
-                let Some(sample_owner) = self
-                    .matched_publication_list
-                    .iter()
-                    .find(|x| x.key().value == instance_owner.owner_handle.as_ref())
-                else {
-                    return Ok(AddChangeResult::NotAdded);
-                };
-                let Some(sample_writer) = self
-                    .matched_publication_list
-                    .iter()
-                    .find(|x| &x.key().value == instance_writer.as_ref())
-                else {
-                    return Ok(AddChangeResult::NotAdded);
-                };
-                if instance_owner.owner_handle != sample.writer_guid
-                    && sample_writer.ownership_strength().value
-                        <= sample_owner.ownership_strength().value
-                {
-                    return Ok(AddChangeResult::NotAdded);
-                }
-            }
-
             match self
                 .instance_ownership
                 .iter_mut()
